@@ -185,6 +185,7 @@ def _correspondence_once(ctx, rep=0):
         if not ok:
             ctx.disagree('C16/' + e.kind, case, gdot, mdot, 'directional derivative: autograd %r vs dual-number model %r' % (gdot, mdot))
     structural(ctx, gen)
+    train_mode_grads(ctx, gen)
     cached_linear_grads(ctx, gen)
     sample_grads(ctx, gen)
     ar_inverse_grads(ctx, gen)
@@ -352,6 +353,49 @@ def structural(ctx, gen, report=None):
                 report('%s (%s): %s' % (e.name, mode, why), case, {'class': e.name.split('/')[0], 'symptom': 'structural', 'mode': mode})
 
 
+def train_mode_grads(ctx, gen, report=None):
+    """training mode: the batch statistics of a normalisation layer are part of the function being differentiated — gradients w.r.t.
+    the inputs (and hence w.r.t. every earlier layer's parameters) flow through the batch mean and variance.  autograd vs central finite
+    differences of the same training-mode call, float64"""
+    import nflows.transforms as T
+    from nflows.flows.realnvp import SimpleRealNVP
+    def rnvp():
+        f = SimpleRealNVP(features=3, hidden_features=6, num_layers=2, num_blocks_per_layer=1, batch_norm_between_layers=True)
+        return f._transform
+    for name, mk, shape in (('BatchNorm', lambda: T.BatchNorm(3), (6, 3)), ('BatchNorm/momentum', lambda: T.BatchNorm(2, momentum=0.5, affine=True), (5, 2)),
+                            ('SimpleRealNVP(batch_norm_between_layers)', rnvp, (6, 3)),
+                            ('Composite[LULinear, BatchNorm]', lambda: T.CompositeTransform([T.LULinear(3, identity_init=False), T.BatchNorm(3)]), (6, 3))):
+        torch.manual_seed(int(torch.randint(0, 2 ** 31 - 1, (1,), generator=gen)))
+        t = mk().double()
+        R.perturb(t, 'normal', gen)
+        t.train()
+        x = (1.5 * torch.randn(shape, generator=gen, dtype=torch.float64) + 0.7)
+        r = torch.randn(shape, generator=gen, dtype=torch.float64); r2 = torch.randn(shape[0], generator=gen, dtype=torch.float64)
+        def L(a):
+            y, ld = t(a)
+            return (y * r).sum() + (ld * r2).sum()
+        why = None
+        try:
+            xg = x.clone().requires_grad_(True)
+            g, = torch.autograd.grad(L(xg), xg)
+            d = torch.randn(shape, generator=gen, dtype=torch.float64)
+            h = 1e-6
+            with torch.no_grad():
+                fd = (L(x + h * d).item() - L(x - h * d).item()) / (2 * h)
+            an = float((g * d).sum())
+            if not abs(fd - an) <= 1e-5 * (1 + abs(fd)):
+                why = 'training-mode gradient w.r.t. the inputs: autograd %.9g vs central finite difference %.9g' % (an, fd)
+        except Exception as ex:
+            why = 'raised %r' % (ex,)
+        case = {'class': name, 'mode': 'train', 'x': x.reshape(-1).tolist()[:12]}
+        if report is None:
+            ctx.case(key=('train-grads', name), branch='structural/train-mode-grads', nontrivial=True)
+            if why:
+                ctx.disagree('C16/structural', case, why, 'autograd = finite differences', why)
+        elif why:
+            report('%s: %s' % (name, why), case, {'class': name.split('(')[0].split('/')[0], 'symptom': 'train-mode-grad!=fd'})
+
+
 def cached_linear_grads(ctx, gen):
     """linear family in eval mode with the weight cache on: parameter gradients through the cached path (first cached call
     = inverse, then forward in a fresh cache epoch) must equal those of the uncached path"""
@@ -392,6 +436,7 @@ def search(ctx):
     """central finite differences of the implementation in float64 away from kinks"""
     sample_grads(ctx, torch.Generator().manual_seed(ctx.seed + 161), report=lambda what, case, match: ctx.fail(what, case, match=match))
     ar_inverse_grads(ctx, torch.Generator().manual_seed(ctx.seed + 162), report=lambda what, case, match: ctx.fail(what, case, match=match))
+    train_mode_grads(ctx, torch.Generator().manual_seed(ctx.seed + 164), report=lambda what, case, match: ctx.fail(what, case, match=match))
     seen_st = set()
     structural(ctx, torch.Generator().manual_seed(ctx.seed + 163),
                report=lambda what, case, match: (ctx.fail(what, case, match=match), seen_st.add(match['class'])) if match['class'] not in seen_st else None)
